@@ -360,7 +360,7 @@ func drawCase(t *rapid.T, maxN int, server bool) *Case {
 	c.Data = *spec
 	c.Writer = rapid.IntRange(0, fix.NWriters-1).Draw(t, "writer")
 	if server {
-		c.ServerArgs = rapid.SampledFrom([][]string{{}, {"-p"}, {"-s", "20000"}, {"-c=false"}}).Draw(t, "sargs")
+		c.ServerArgs = rapid.SampledFrom([][]string{{}, {"-p"}, {"-s", "20000"}, {"-c=false"}, {"env:GOMAXPROCS=2"}, {"-s", "20000", "env:GOMAXPROCS=1"}}).Draw(t, "sargs")
 	} else {
 		c.Open.Preload = rapid.Bool().Draw(t, "preload")
 		c.Open.CacheCap = rapid.SampledFrom([]int64{-1, 600, 5000, 1 << 24, 1 << 24}).Draw(t, "cap")
